@@ -131,3 +131,63 @@ def is_conjunction(t, lits):
         if r is not True:
             return r
     return True
+
+
+# ---------------------------------------------------------------------------------------------
+# 1-bit boolean functions of input bits: exact comparison by truth table over the (few) bits involved
+
+def _bit_atoms(t, acc):
+    for x in tm.walk(t):
+        if x.op == 'slice' and x.w == 1 and x.args[0].op == 'in':
+            acc.add(x)
+        elif x.op == 'in' and x.w == 1:
+            acc.add(x)
+    return acc
+
+
+def _bit_eval(t, env):
+    op = t.op
+    if op == 'const':
+        return t.args[0] & 1
+    if t in env:
+        return env[t]
+    if op in ('and', 'or', 'xor'):
+        a, b = _bit_eval(t.args[0], env), _bit_eval(t.args[1], env)
+        if a is None or b is None:
+            return None
+        return (a & b) if op == 'and' else (a | b) if op == 'or' else (a ^ b)
+    if op == 'not':
+        a = _bit_eval(t.args[0], env)
+        return None if a is None else 1 - a
+    if op == 'select':
+        c = _bit_eval(t.args[0], env)
+        if c is None:
+            return None
+        return _bit_eval(t.args[1] if c else t.args[2], env)
+    if op in ('sextbits', 'sext') and t.w == 1:
+        x = t.args[0]
+        return _bit_eval(tm.slice_(x, x.w - 1, 1), env)
+    if op == 'slice' and t.w == 1:
+        x, lo = t.args
+        if x.op in ('sextbits', 'sext'):
+            src = x.args[0]
+            if x.op == 'sextbits' or lo >= src.w:
+                return _bit_eval(tm.slice_(src, src.w - 1, 1), env)
+    return None
+
+
+def bit_function_equal(t, exp, max_bits=10):
+    """compare two 1-bit terms as boolean functions of the input bits they mention.
+    True / (False, witness) / None (not a pure bit function or too many bits)"""
+    import itertools
+    atoms = sorted(_bit_atoms(t, _bit_atoms(exp, set())), key=lambda x: x.id)
+    if len(atoms) > max_bits:
+        return None
+    for vals in itertools.product((0, 1), repeat=len(atoms)):
+        env = dict(zip(atoms, vals))
+        a, b = _bit_eval(t, env), _bit_eval(exp, env)
+        if a is None or b is None:
+            return None
+        if a != b:
+            return (False, {tm.show(k): v for k, v in env.items()})
+    return True
